@@ -16,7 +16,7 @@ impl Case {
     fn line(&self) -> String { let h = |b: &[u8]| if b.is_empty() { "-".to_string() } else { kspec::hex(b) }; format!("{} {} {} {} {} {}\n", h(&self.pw()), h(&self.salt()), self.n(), self.r, self.p, self.dk_len) }
 }
 pub fn strat(max_mem: u64) -> impl Strategy<Value = Case> {
-    (any::<u64>(), prop_oneof![3 => 0usize..40, 2 => 60usize..70, 1 => 0usize..200], prop_oneof![3 => 0usize..40, 1 => 0usize..200], prop_oneof![5 => 1u32..6, 2 => 1u32..11, 1 => 1u32..16], prop_oneof![3 => 1u32..4, 2 => 1u32..17], prop_oneof![3 => 1u32..4, 1 => 1u32..9], prop_oneof![2 => prop_oneof![Just(1usize), Just(31), Just(32), Just(33), Just(63), Just(64), Just(65)], 2 => 1usize..201])
+    (any::<u64>(), prop_oneof![3 => 0usize..40, 2 => 60usize..70, 1 => 0usize..200], prop_oneof![3 => 0usize..40, 1 => 0usize..200], prop_oneof![5 => 1u32..6, 2 => 1u32..11, 1 => 1u32..16], prop_oneof![3 => 1u32..4, 2 => 1u32..17], prop_oneof![3 => 1u32..4, 1 => 1u32..9], prop_oneof![8 => prop_oneof![Just(1usize), Just(31), Just(32), Just(33), Just(63), Just(64), Just(65)], 8 => 1usize..201, 1 => prop_oneof![Just(8160usize), Just(8161), Just(8192), 8000usize..20000]])
         .prop_map(move |(seed, pw_len, salt_len, log_n, r, p, dk_len)| { let mut log_n = log_n; while 128u64 * (1u64 << log_n) * r as u64 > max_mem && log_n > 1 { log_n -= 1; } Case { seed, pw_len, salt_len, log_n, r, p, dk_len } })
 }
 
@@ -78,7 +78,7 @@ pub fn run(ctx: &Ctx) {
     let mem = if ctx.quick() { 8u64 << 20 } else { 64 << 20 };
     ctx.pbt("lib_and_ffi_vs_rfc7914", ctx.n(6_000, 150_000), || strat(mem), check);
     // RFC 7914 / production parameter sets, deterministically
-    let fixed: Vec<Case> = vec![Case { seed: 1, pw_len: 0, salt_len: 0, log_n: 4, r: 1, p: 1, dk_len: 64 }, Case { seed: 2, pw_len: 8, salt_len: 4, log_n: 10, r: 8, p: 16, dk_len: 64 }, Case { seed: 3, pw_len: 13, salt_len: 14, log_n: 14, r: 8, p: 1, dk_len: 64 }, Case { seed: 4, pw_len: 7, salt_len: 32, log_n: 15, r: 8, p: 1, dk_len: 32 }, Case { seed: 5, pw_len: 100, salt_len: 32, log_n: 15, r: 8, p: 1, dk_len: 32 }, Case { seed: 6, pw_len: 5, salt_len: 5, log_n: 15, r: 16, p: 2, dk_len: 200 }];
+    let fixed: Vec<Case> = vec![Case { seed: 1, pw_len: 0, salt_len: 0, log_n: 4, r: 1, p: 1, dk_len: 64 }, Case { seed: 2, pw_len: 8, salt_len: 4, log_n: 10, r: 8, p: 16, dk_len: 64 }, Case { seed: 3, pw_len: 13, salt_len: 14, log_n: 14, r: 8, p: 1, dk_len: 64 }, Case { seed: 4, pw_len: 7, salt_len: 32, log_n: 15, r: 8, p: 1, dk_len: 32 }, Case { seed: 5, pw_len: 100, salt_len: 32, log_n: 15, r: 8, p: 1, dk_len: 32 }, Case { seed: 6, pw_len: 5, salt_len: 5, log_n: 15, r: 16, p: 2, dk_len: 200 }, Case { seed: 7, pw_len: 9, salt_len: 9, log_n: 2, r: 1, p: 1, dk_len: 8161 }, Case { seed: 8, pw_len: 64, salt_len: 9, log_n: 3, r: 2, p: 1, dk_len: 16400 }];
     ctx.sse_vec("fixed_parameter_sets", "RFC 7914 parameter sets and kestrel's production parameters (32768, 8, 1)", fixed.clone(), check);
     // state must not leak between calls: after a call that was refused (panic on dkLen = 0 / N not a power of two), valid calls still give the RFC value
     ctx.sse_vec("valid_call_after_refused_call", "scrypt with invalid parameters (caught panic) followed by the fixed parameter sets", vec![Case { seed: 11, pw_len: 3, salt_len: 3, log_n: 3, r: 1, p: 1, dk_len: 16 }, Case { seed: 12, pw_len: 9, salt_len: 0, log_n: 5, r: 2, p: 2, dk_len: 40 }], |c: &Case| {
